@@ -18,6 +18,8 @@ import (
 // and scan, and the lake-wide meta queries must work.  The observer runs
 // entirely inside one storage state, so what it lists cannot legitimately
 // disappear before it opens it.  Both atomic and create-then-fill puts.
+var createCases []string
+
 func observedOps(res *Result, tier string) error {
 	ctx := context.Background()
 	// a torn HEAD costs the real readID ten seconds of back-off per read (verif-tag hook)
@@ -133,6 +135,28 @@ func observedOps(res *Result, tier string) error {
 			for _, p := range AuditReadable(eng.View(nil)) {
 				res.Fail(Failure{Kind: "oracle", Sig: "C12:unreadable-after:" + op.Kind, Detail: fmt.Sprintf("after %s (filemode=%v) a fresh handle found: %s", op, fileMode, p),
 					Replay: map[string]any{"operation": op.String(), "filemode": fileMode}, Expected: "everything listed is readable", Observed: p})
+			}
+			if op.Kind == "createpool" && operr == nil {
+				// correspondence with coq/Model/PoolCreate.v: the classes of the storage
+				// operations CreatePool issued, in order
+				var steps []string
+				for _, t := range trail {
+					kind, path, _ := strings.Cut(t, " ")
+					mut := kind == "put" || kind == "putx" || kind == "write"
+					base := path[strings.LastIndex(path, "/")+1:]
+					switch {
+					case mut && strings.Contains(path, "/pools/") && strings.HasSuffix(base, ".zng") && base != "snap.zng":
+						steps = append(steps, "PRegister")
+					case mut && strings.Contains(path, "/branches/") && (base == "HEAD" || base == "TAIL"):
+						steps = append(steps, "PLayout 0")
+					case mut && strings.Contains(path, "/branches/") && strings.HasSuffix(base, ".zng"):
+						steps = append(steps, "PLayout 1")
+					default:
+						steps = append(steps, "POther")
+					}
+				}
+				createCases = append(createCases, fmt.Sprintf("([0; 1]%%nat, [%s])", strings.Join(steps, "; ")))
+				res.ModelCases++
 			}
 			res.Count("observed_ops")
 			res.CountN("observed_states", n)
